@@ -239,6 +239,9 @@ fn request_of(plan: &SPlan) -> (String, String, String, Vec<(String, String)>, V
 }
 
 async fn run(plan: SPlan) -> Obs {
+    // on TLS connections only semantic events are traced (the ciphertext depends on entropy the
+    // simulation does not own): the plan's digest stands in for the bytes that were sent
+    world::note(900, crate::prng::fnv64(serde_json::to_string(&plan).unwrap_or_default().as_bytes()), 0);
     let obs: Shared<Obs> = Arc::new(Mutex::new(Obs::default()));
     let host = |name: &str, cert: usize| HostCfg {
         hostname: name.into(),
